@@ -288,6 +288,17 @@ class Relevance:
                     cands, kind = self.ctx.resolver.resolve_call(n, callee, count=False)
                     if kind in ("unique", "cha"):
                         sub = list(cands)
+                if not sub and isinstance(f, ast.Name) and any(a.arg == f.id for a in callee.node.args.args):
+                    sub_classes = self._callable_param_classes(callee, f.id)
+                    for k in sub_classes:
+                        init = k.find_method("__init__")
+                        if init is not None and self.of(init, k, _stack + (key,)) == "yes":
+                            res = "yes"
+                            break
+                    if res == "yes":
+                        break
+                    if sub_classes:
+                        continue
                 if not sub:
                     if res == "no":
                         res = "maybe"
@@ -304,6 +315,53 @@ class Relevance:
                     break
         self.memo[key] = res
         return res
+
+
+def _callable_param_classes(self, callee: FuncInfo, pname: str) -> List[ClassInfo]:
+    """Classes that may be bound to the callable parameter ``pname`` of ``callee`` (followed through one
+    tuple-returning helper, e.g. ``module, maximize = _get_matching_module(mode)``)."""
+    ctx = self.ctx
+    out: List[ClassInfo] = []
+    for fi in ctx.index.functions.values():
+        for call in calls_in(fi.node):
+            cands, kind = ctx.resolver.resolve_call(call, fi, count=False)
+            if kind != "unique" or cands[0] is not callee:
+                continue
+            v = bind(call, callee).bound.get(pname)
+            if not isinstance(v, ast.Name):
+                continue
+            r = ctx.index.resolve_name(fi.module.name, v.id)
+            if isinstance(r, ClassInfo):
+                out.append(r)
+                continue
+            for n in walk_own(fi.node):
+                if isinstance(n, ast.Assign) and isinstance(n.value, ast.Call):
+                    for t in n.targets:
+                        elts = t.elts if isinstance(t, ast.Tuple) else [t]
+                        for i, e in enumerate(elts):
+                            if isinstance(e, ast.Name) and e.id == v.id:
+                                g, gk = ctx.resolver.resolve_call(n.value, fi, count=False)
+                                if gk != "unique":
+                                    continue
+                                for rn in walk_own(g[0].node):
+                                    if isinstance(rn, ast.Return) and rn.value is not None:
+                                        rv = rn.value.elts[i] if isinstance(rn.value, ast.Tuple) and isinstance(t, ast.Tuple) and i < len(rn.value.elts) else rn.value
+                                        names = [rv.id] if isinstance(rv, ast.Name) else []
+                                        for nm in names:
+                                            for an in walk_own(g[0].node):
+                                                val = None
+                                                if isinstance(an, ast.AnnAssign) and isinstance(an.target, ast.Name) and an.target.id == nm:
+                                                    val = an.value
+                                                elif isinstance(an, ast.Assign) and any(isinstance(x, ast.Name) and x.id == nm for x in an.targets):
+                                                    val = an.value
+                                                if isinstance(val, ast.Name):
+                                                    k = ctx.index.resolve_name(g[0].module.name, val.id)
+                                                    if isinstance(k, ClassInfo) and k not in out:
+                                                        out.append(k)
+    return out
+
+
+Relevance._callable_param_classes = _callable_param_classes
 
 
 def _guarded_base_link(call: ast.AST) -> bool:
